@@ -353,12 +353,10 @@ def _run(prop, trace, log, stats):
             stats['coverage_checked'] += 1
 
 
-def generate(prop, seed, tier, modes, conn_share=0.0):
+def generate(prop, seed, tier, modes, conn_share=0.0, constraint_share=0.0):
     s = Streams(seed)
     rng = s('gen')
-    spec = gen_dsg.gen_selection_spec(rng, n_incompat_max=rng.choice([0, 0, 3]), p_cycle=0.0,
-                                      p_shared=0.0, acyclic=True, tree_options=True,
-                                      max_choices=rng.choice([0, 1, 2, 3, 4, 4]))
+    spec = gen_dsg.gen_tree_spec(rng, n_incompat_max=rng.choice([0, 0, 3]), max_choices=rng.choice([0, 2, 3, 4, 4, 4]))
     if len(spec['sel']) >= 2 and rng.random() < 0.3:
         # blocked options: some options of one choice are incompatible with every option of another choice, so vectors
         # that pick them have to be corrected to a (possibly distant) neighbour
@@ -373,6 +371,10 @@ def generate(prop, seed, tier, modes, conn_share=0.0):
                 if x != y and [x, y] not in spec['incompat'] and [y, x] not in spec['incompat']:
                     spec['incompat'].append([x, y])
     spec = gen_dsg.clean_incompat(spec)
+    if constraint_share and rng.random() < constraint_share:
+        spec = gen_dsg.add_linked_constraint(rng, spec, hierarchical=False)
+        if spec.get('constraints'):
+            spec['incompat'] = []  # linked choices are not combined with incompatibilities (fast-encoder quirks, 9.3)
     spec = gen_dsg.add_dv_metrics(rng, spec, n_metric_max=0)
     if conn_share and rng.random() < conn_share:
         spec = gen_dsg.add_conn_choice(rng, spec, p_group=0.0)
